@@ -373,6 +373,51 @@ def run(ctx):
             continue
         casts = [n for n in dwalk(_ARM8[f.path]["body"]) if n.get("k") == "Cast" and n.get("ty") in NARROW and (n.get("e") or {}).get("ty") in ("usize", "u64", "u128")]
         chk.ob("C03.a", f"{f.path} [class 8+ positions at full width]", not casts, "no label count / position of the unbounded class is narrowed" if not casts else f"the arm taken by every count >= 8 casts a {casts[0]['e'].get('ty')} to {casts[0].get('ty')}: positions wrap from {2 ** {'u8': 8, 'i8': 7, 'u16': 16, 'i16': 15}.get(casts[0].get('ty'), 32)} labels on, so the canonical form is no longer the stable sort of all labels", f"{f.j.get('file', '')}:{(casts[0] if casts else {}).get('ln', '')}", nontrivial=False)
+    # every permutation that is sorted starts as the identity: the stable sort then breaks ties between labels of one name by
+    # their position in *that* key, in hasher, == and cmp alike (a map seeded with the other side's permutation does not)
+    for nm, f in (("hash", hasher), ("eq", eqf), ("cmp", cmpf)):
+        if f is None or not f.hir:
+            continue
+        lets = {}
+        for st in dwalk(f.hir):
+            if st.get("k") in ("Let", "Local") and isinstance(st.get("pat"), dict) and st["pat"].get("k") == "Bind" and st.get("init"):
+                lets[(st["pat"].get("name"), st["pat"].get("id"))] = st["init"]
+        seeded = []
+        nsort = 0
+        for n in dwalk(f.hir):
+            if n.get("k") == "MethodCall" and (n.get("name") or "") in SORTS:
+                r = peel(n.get("recv") or {})
+                while r.get("k") in ("Index", "AddrOf", "Unary", "MethodCall") and isinstance(r.get("e") or r.get("recv"), dict):
+                    r = peel(r.get("e") or r.get("recv"))
+                if r.get("k") != "Path" or r.get("res") != "local":
+                    continue
+                init = peel(lets.get((r.get("name"), r.get("id"))) or {})
+                if not init:
+                    continue
+                nsort += 1
+                ident = False
+                if init.get("k") == "Array":
+                    ident = all(peel(e).get("k") == "Lit" and peel(e).get("int") == i for i, e in enumerate(init.get("elems") or []))
+                elif init.get("k") == "MethodCall" and init.get("name") == "collect":
+                    rg = peel(init.get("recv") or {})
+                    ident = rg.get("k") == "Struct" and "Range" in (rg.get("path") or "") and any(peel(fl.get("e") or {}).get("int") == 0 for fl in rg.get("fields") or [] if fl.get("f") == "start")
+                elif init.get("k") == "Call" and is_call_to(init, "array::from_fn", "from_fn"):
+                    ident = True
+                if not ident:
+                    seeded.append((r.get("name"), n.get("ln")))
+        if nsort:
+            chk.ob("C03.a", f"{f.path} [sorted permutations start as the identity]", not seeded, f"{nsort} sorted index map(s), each initialised 0, 1, 2, .." if not seeded else f"`{seeded[0][0]}` is sorted starting from something other than the identity permutation: ties between labels of one name are broken by another key's order, so two keys can be cmp-Equal one way round and not the other, or == keys hash apart", f"{f.j.get('file', '')}:{seeded[0][1] if seeded else ''}", nontrivial=False)
+    # concatenation order of with_extra_labels: the key's own labels first, then the extra ones — the same list from_parts
+    # would be given (with a repeated label name the stable sort keeps list order, so the order is observable)
+    wel = (m.method(KEY, "with_extra_labels") or [None])[0]
+    if wel is not None:
+        joins = [c for c in nonforeign_calls(wel) if c.fn is wel and strip_generics(c.resolved or c.callee or "").split("::")[-1] in ("extend", "append", "extend_from_slice", "chain") and len(c.args) == 2]
+        for c in joins:
+            a = arg_syms(c)
+            first_own = f"'{KF['labels']}'" in repr(a[0]) and "('arg', 1" not in repr(a[0])
+            then_extra = "('arg', 1" in repr(a[1]) and f"'{KF['labels']}'" not in repr(a[1])
+            if (f"'{KF['labels']}'" in repr(a[0]) + repr(a[1])) and ("('arg', 1" in repr(a[0]) + repr(a[1])):
+                chk.ob("C03.b", f"{wel.path} [own labels, then the extra ones]", first_own and then_extra, "labels = self.labels ++ extra_labels" if first_own and then_extra else "with_extra_labels puts the extra labels in front of the key's own: with a repeated label name the result is not the key from_parts builds from the same list (==, cmp and both hashes differ)", c.loc(), nontrivial=False)
     # early exits of == ahead of the per-class comparison: `false` only where a projection that equal keys share differs
     # (name, label count, hash), `true` only for one and the same key; anything else decides equality outside the canonical form
     if eqf is not None and eqf.path in _DISPATCH:
